@@ -126,13 +126,15 @@ func Run(rep *report.Report, tier string) {
 				defer wg.Done()
 				for j := range ch {
 					name := fmt.Sprintf("rib=%s target=%s election=%s learnt=%v map-order=%d", catalogue[j.ci].name, targets[j.ti].name, els[j.ei].name, learnt[j.li], order)
-					oc, fails := one(j.ci, targets[j.ti], els[j.ei], learnt[j.li])
-					mu.Lock()
-					outcomes[oc]++
-					mu.Unlock()
-					for _, f := range fails {
-						rep.Violate(f[0], name+": "+f[1], map[string]any{"case": name})
-					}
+					rep.Guard(name, map[string]any{"case": name}, func() {
+						oc, fails := one(j.ci, targets[j.ti], els[j.ei], learnt[j.li])
+						mu.Lock()
+						outcomes[oc]++
+						mu.Unlock()
+						for _, f := range fails {
+							rep.Violate(f[0], name+": "+f[1], map[string]any{"case": name})
+						}
+					})
 				}
 			}()
 		}
